@@ -130,6 +130,42 @@ var LegitEncodeRejections = []string{
 	"don't know how to encode",
 }
 
+// sliceCounts: element counts enumerated for a struct-slice position besides 0/1/2. Default: 127 and 128 (the count is
+// a VarInt everywhere; 127 is the last one-byte count). Where the protocol documentation bounds the collection, the
+// documented maximum (and the value below it) is used instead; nil = the position has a fixed small domain.
+var sliceCounts = map[string]func(c Cell) []int{
+	// serverbound "select known packs": at most 64 packs; clientbound unbounded
+	"config.KnownPacks.Packs": func(c Cell) []int {
+		if c.Direction == proto.ServerBound {
+			return []int{63, 64}
+		}
+		return []int{127, 128}
+	},
+	// game profile properties: at most 16
+	"packet.ServerLoginSuccess.Properties":          func(Cell) []int { return []int{15, 16} },
+	"playerinfo.Upsert.Entries.Profile.Properties":  func(Cell) []int { return []int{15, 16} },
+	"legacytablist.PlayerListItem.Items.Properties": func(Cell) []int { return []int{15, 16} },
+	// 1.19.1 signed chat: at most 5 previous messages
+	"chat.KeyedPlayerChat.PreviousMessages": func(Cell) []int { return []int{4, 5} },
+	// signed command arguments: at most 8
+	"chat.SessionPlayerCommand.ArgumentSignatures.Entries":                       func(Cell) []int { return []int{7, 8} },
+	"chat.UnsignedPlayerCommand.SessionPlayerCommand.ArgumentSignatures.Entries": func(Cell) []int { return []int{7, 8} },
+	// 1.7 tab list packets carry exactly one item
+	"legacytablist.PlayerListItem.Items": func(c Cell) []int {
+		if c.Protocol.Lower(version.Minecraft_1_8) {
+			return nil
+		}
+		return []int{127, 128}
+	},
+}
+
+func sliceCountsFor(c Cell, key string) []int {
+	if f, ok := sliceCounts[key]; ok {
+		return f(c)
+	}
+	return []int{127, 128}
+}
+
 type ov = func(c Cell) []Val
 
 func fixed(vs []Val) ov { return func(Cell) []Val { return vs } }
